@@ -5,7 +5,7 @@ They decide nothing about the model: the theorems do that. They turn a broken ti
 from spec import check_sequential
 from cases import take_params, take_plan
 
-PULL_OPS = ("next", "nextv", "chunk", "bufnext", "foreach", "enumforeach", "fold", "values", "idsvalues")
+PULL_OPS = ("next", "nextv", "chunk", "bufnext", "foreach", "enumforeach", "fold", "values", "idsvalues", "vnth", "ivnth")
 LOOP_OPS = ("foreach", "enumforeach", "fold", "values", "idsvalues")
 
 
@@ -109,7 +109,19 @@ class Trace:
         list of (pos or None, val or None, consumed: bool)"""
         out = []
         r = oi.rtoks
-        if oi.op in ("next",) and r and r[0] == "item":
+        if oi.op in ("vnth", "ivnth"):
+            # `values().nth(k)`: every single pull the default `nth` made took an element (the first k are discarded by the
+            # caller's `nth`, the last one is returned): the positions are the counter values the pulls read
+            c = self.case
+            if not c.is_iter():
+                for (_, ev) in oi.events:
+                    if ev[0] == "at" and ev[2] == "faa" and int(ev[4]) < c.src_len():
+                        out.append((int(ev[4]), c.val_at(int(ev[4])), True))
+            else:
+                for (_, ev) in oi.events:
+                    if ev[0] == "src" and ev[1] == "exit" and ev[2] == "some":
+                        out.append((None, int(ev[3]), True))
+        elif oi.op in ("next",) and r and r[0] == "item":
             out.append((int(r[1]), int(r[2]), True))
         elif oi.op == "nextv" and r and r[0] == "value":
             out.append((None, int(r[1]), True))
@@ -888,6 +900,57 @@ def check_C18(tr):
     return bad
 
 
+def check_wrapper_nth(tr):
+    """single-threaded cases with `values().nth(k)` / `ids_and_values().nth(k)`: std's default `nth` is k+1 calls of the
+    wrapper's `next` -- k single pulls discarded, the next one returned, stopping at the first end; a sequential cursor
+    says what every operation of the case must return"""
+    c = tr.case
+    if not c.has_op("vnth", "ivnth") or len([t for t in c.threads if t]) != 1 or c.is_iter() and not c.fused():
+        return []
+    if c.has_op("skip", "get", "clone", "foreach", "enumforeach", "fold", "values", "idsvalues", "bufnext", "bufnew"):
+        return []
+    L = c.src_len()
+    bad = []
+    ctr = 0
+    for oi in tr.ops:
+        if oi.slot != 0 or oi.ret is None or oi.panic:
+            return bad
+        if oi.op in ("next", "nextv"):
+            want = ("some", ctr) if ctr < L else ("end",)
+            ctr += 1
+        elif oi.op in ("vnth", "ivnth"):
+            k = int(oi.toks[1])
+            want = ("end",)
+            for i in range(k + 1):
+                if ctr < L:
+                    if i == k:
+                        want = ("some", ctr)
+                    ctr += 1
+                else:
+                    ctr += 1
+                    break
+        elif oi.op == "chunk":
+            ctr += oi.n
+            continue
+        elif oi.op in ("len", "hasmore"):
+            continue
+        else:
+            return bad
+        r = oi.rtoks
+        if want[0] == "end":
+            if r[0] != "end":
+                bad.append("`%s` (line %d) returned `%s`, a sequential cursor over the source is at its end" % (" ".join(oi.toks), oi.call, " ".join(r)))
+        else:
+            p = want[1]
+            if r[0] == "end":
+                bad.append("`%s` (line %d) reported the end, a sequential cursor over the source returns position %d" % (" ".join(oi.toks), oi.call, p))
+            elif r[0] == "item" and (int(r[1]) != p or int(r[2]) != c.val_at(p)):
+                bad.append("`%s` (line %d) returned index %s value %s, a sequential cursor returns index %d value %d" % (" ".join(oi.toks), oi.call, r[1], r[2], p, c.val_at(p)))
+            elif r[0] == "value" and int(r[1]) != c.val_at(p):
+                bad.append("`%s` (line %d) returned value %s, a sequential cursor returns %d (position %d)" % (" ".join(oi.toks), oi.call, r[1], c.val_at(p), p))
+    return bad
+
+
 def check_C19(tr):
     bad = check_ks_events(tr) + check_sequential(tr) + check_fidelity(tr) + check_unscripted_panic(tr)
     # an iterator that has been skipped to its end stays there, and so does every clone taken from it afterwards ("a clone
@@ -905,9 +968,13 @@ def check_C19(tr):
     return bad
 
 
+def _with_nth(f):
+    return lambda tr: f(tr) + check_wrapper_nth(tr)
+
+
 MONITORS = {
     "C19": check_C19,
-    "C01": check_C01, "C02": check_C02, "C03": check_C03, "C04": check_C04, "C05": check_C05,
+    "C01": _with_nth(check_C01), "C02": _with_nth(check_C02), "C03": check_C03, "C04": _with_nth(check_C04), "C05": check_C05,
     "C06": check_C06, "C07": check_C07, "C08": check_C08, "C09": check_C09, "C10": check_C10,
     "C11": check_C11, "C12": check_C12, "C15": check_C15, "C16": check_C16, "C18": check_C18,
 }
